@@ -227,7 +227,7 @@ CHECKS["C06"] = {
     "harnesses": [
         H("opentype/gtab", _S, "VerifH_C06_single", ["applied"], quick={"params": {"maxlen": 2}, "timeout": 280, "shards": 4}, thorough={"params": {"maxlen": 4}, "timeout": 2400, "shards": 4}),
         H("opentype/gtab", _S, "VerifH_C06_multiple", ["applied"], quick={"params": {"maxlen": 2}, "timeout": 280}, thorough={"params": {"maxlen": 3}, "timeout": 2400}),
-        H("opentype/gtab", _S, "VerifH_C06_ligature", ["applied"], quick={"params": {"maxlen": 2}, "timeout": 280}, thorough={"params": {"maxlen": 3}, "timeout": 2400}),
+        H("opentype/gtab", _S, "VerifH_C06_ligature", ["applied"], quick={"params": {"maxlen": 3}, "timeout": 280}, thorough={"params": {"maxlen": 4}, "timeout": 2400}),
         H("opentype/gtab", _S, "VerifH_C06_pair", ["applied"], quick={"params": {"maxlen": 2}, "timeout": 280}, thorough={"params": {"maxlen": 3}, "timeout": 2400}),
         H("opentype/gtab", _S, "VerifH_C06_context", ["applied"], quick={"params": {"maxlen": 2}, "timeout": 280}, thorough={"params": {"maxlen": 3}, "timeout": 2400}),
     ],
